@@ -16,7 +16,7 @@ def gate(name, default="y"):
 LIT = {
     "int": dict(fallback="5", cond="11", setv="10", wsetv="3", lo="1", hi="10", users=[NOVAL, "3", "100", "5", "-1"], src=("3", "100"), bnd=("10", "5")),
     "hex": dict(fallback="0x5", cond="0x21", setv="0xff", wsetv="0x3", lo="0x1", hi="0x20", users=[NOVAL, "0x1F", "1f", "0x5", "0xff"], src=("0x3", "0xff"), bnd=("0x20", "0x10")),
-    "float": dict(fallback="5.0", cond="11.5", setv="10.0", wsetv="3.25", lo="1.5", hi="10.0", users=[NOVAL, "3", "100.5", "5", "-0.5"], src=("3.25", "100.5"), bnd=("10.0", "7")),
+    "float": dict(fallback="5.0", cond="11.5", setv="10.0", wsetv="3.25", lo="1.5", hi="10.0", users=[NOVAL, "3", "100.5", "5", "-0.5", "2.5e16", "1e-7"], src=("3.25", "100.5"), bnd=("10.0", "7")),
     "string": dict(fallback="fb", cond="cd", setv="forced", wsetv="weak", users=[NOVAL, "", "fb", "x", 'q"z'], src=("sv", "zz")),
 }
 
@@ -219,7 +219,7 @@ def edge_lattice():
 WIDE_USERS = {
     "int": [NOVAL, "3", "100", "-1", "007", "010", "2000000000", "1_0", " 7", "+3", "0x5", "abc", ""],
     "hex": [NOVAL, "0x1F", "0X1f", "1f", "0xff", "-0x1", "zz", " 1f", "+1f", "0x", "010"],
-    "float": [NOVAL, "3", "5.0", "1e3", "-0.5", ".5", "nan", "inf", "1,5", "100.5", "1_0", " 7"],
+    "float": [NOVAL, "3", "5.0", "1e3", "-0.5", ".5", "nan", "inf", "1,5", "100.5", "1_0", " 7", "2.5e16", "1e-7", "1e400"],
 }
 
 
